@@ -46,6 +46,15 @@ func Wat(wat string) []byte {
 // ScriptAsk returns an oracle script that in prepare asks the given data source ids (external id = position+1,
 // calldata "test") and in execute returns the constant bytes ret (empty ret => script returns nothing => FAILURE).
 func ScriptAsk(dsIDs []int, ret string) []byte {
+	eids := make([]int, len(dsIDs))
+	for i := range eids {
+		eids[i] = i + 1
+	}
+	return ScriptAskEIDs(dsIDs, eids, ret)
+}
+
+// ScriptAskEIDs is ScriptAsk with explicit external ids (asked in the given order, which need not be ascending).
+func ScriptAskEIDs(dsIDs []int, eids []int, ret string) []byte {
 	var sb strings.Builder
 	sb.WriteString(`(module
 	(type $t0 (func))
@@ -56,7 +65,7 @@ func ScriptAsk(dsIDs []int, ret string) []byte {
 	(func $prepare (export "prepare") (type $t0)
 `)
 	for i, d := range dsIDs {
-		fmt.Fprintf(&sb, "  i64.const %d\n  i64.const %d\n  i64.const 1024\n  i64.const 4\n  call $ask_external_data\n", i+1, d)
+		fmt.Fprintf(&sb, "  i64.const %d\n  i64.const %d\n  i64.const 1024\n  i64.const 4\n  call $ask_external_data\n", eids[i], d)
 	}
 	sb.WriteString(")\n\t(func $execute (export \"execute\") (type $t0)\n")
 	if ret != "" {
